@@ -120,6 +120,34 @@ func checkC01(r *run, m *PacketModel) (CaseInfo, error) {
 		}
 	}
 
+	// a packet as it comes off the wire may repeat an extension id (SetExtension cannot build that): it still has to
+	// survive Unmarshal -> Marshal -> Unmarshal element by element
+	if (m.ExtKind == "onebyte" || m.ExtKind == "twobyte") && len(m.Exts) >= 2 && len(m.Exts) <= 40 && m.Seq%4 == 0 {
+		wc := WireCase{Model: *m}
+		wc.Model.Exts = append([]ExtElem{}, m.Exts...)
+		wc.Model.Exts[len(m.Exts)-1].ID = m.Exts[0].ID
+		if img, _, _, e := wc.image(); e == nil {
+			ci.class("wire-image-repeats-an-id")
+			var d1, d2 rtp.Packet
+			if err := d1.Unmarshal(clone(img)); err != nil {
+				return ci, failf("Unmarshal rejects a well-formed image that repeats extension id %d: %v (%s)", m.Exts[0].ID, err, hx(img))
+			}
+			if err := wc.Model.comparePacket(&d1, "Unmarshal of an image that repeats an extension id"); err != nil {
+				return ci, err
+			}
+			again, err := d1.Marshal()
+			if err != nil {
+				return ci, failf("Marshal of a decoded packet that repeats an extension id: %v", err)
+			}
+			if err := d2.Unmarshal(again); err != nil {
+				return ci, failf("Unmarshal rejects Marshal's output for a packet that repeats an extension id: %v", err)
+			}
+			if err := wc.Model.comparePacket(&d2, "Unmarshal(Marshal(p)) for a decoded packet that repeats an extension id"); err != nil {
+				return ci, err
+			}
+		}
+	}
+
 	// Header alone.
 	hsz := p.Header.MarshalSize()
 	if hsz != m.headerSize() {
@@ -197,7 +225,7 @@ func compareWire(m *PacketModel, w *rtpwire.Packet, canonical bool) error {
 	return nil
 }
 
-const ruleC01 = "rapid draws well-formed Packet models (version 0-3, marker, PT 0-127, sequence/timestamp/SSRC biased to 0, 1 and the maxima, 0-15 CSRCs, no/one-byte/two-byte/legacy extension built with SetExtension incl. empty two-byte values, 16-byte one-byte values, ids 1-14 / 1-255, a two-byte block filled to 64 KiB in one case of 150 and legacy values of up to 65535 words, payload 0-1500 B or (one case in 200) 64-70 KiB, nil or empty payload, padding 0 or 1-255); oracle: MarshalSize = RFC size of the model, Marshal, a second Marshal after the caller overwrote the first result, the independent RFC 3550/8285 parser reads the model back from the encoder output, Unmarshal into a fresh Packet and into a Packet that decoded another packet before (also from one shared receive buffer, and into a Packet edited with DelExtension after an earlier decode) gives back every field, Header.Marshal/Unmarshal likewise; non-trivial = has extension, CSRC, padding or an empty payload; distinct = FNV-64 of the JSON case"
+const ruleC01 = "rapid draws well-formed Packet models (version 0-3, marker, PT 0-127, sequence/timestamp/SSRC biased to 0, 1 and the maxima, 0-15 CSRCs, no/one-byte/two-byte/legacy extension built with SetExtension incl. empty two-byte values, 16-byte one-byte values, ids 1-14 / 1-255, a two-byte block filled to 64 KiB in one case of 150 and legacy values of up to 65535 words, payload 0-1500 B or (one case in 200) 64-70 KiB, nil or empty payload, padding 0 or 1-255); oracle: MarshalSize = RFC size of the model, Marshal, a second Marshal after the caller overwrote the first result, the independent RFC 3550/8285 parser reads the model back from the encoder output, Unmarshal into a fresh Packet and into a Packet that decoded another packet before (also from one shared receive buffer, and into a Packet edited with DelExtension after an earlier decode) gives back every field, Header.Marshal/Unmarshal likewise; a quarter of the RFC 8285 models are also laid out as a wire image that repeats an extension id and taken through Unmarshal, Marshal, Unmarshal; non-trivial = has extension, CSRC, padding or an empty payload; distinct = FNV-64 of the JSON case"
 
 func TestC01(t *testing.T) {
 	r := begin(t, "C01", "exploration", ruleC01)
